@@ -37,6 +37,17 @@ def slippage_cases(rng, tier):
               (0, 1, 1, 1, 1), (D, 5, 7, 1, W128 - 1), (10 ** 16, 0, 5, 5, 5), (10 ** 16, 5, 0, 5, 5),
               (10 ** 16, 5, 5, 0, 5), (10 ** 16, 5, 5, 5, 0), (None, 0, 0, 0, 0), (None, 5, 6, 7, 8)]:
         cases.append(slippage_case(*v, "corpus"))
+    # one deposit an EXACT multiple q >= 2 of the other, the pool ratio between floor(q(1-t)) and q(1-t), both ways round and at
+    # several magnitudes (C15-agent25: a whole-number fast path that truncated q*(1-t) to an integer)
+    for q in (2, 3, 5, 10, 100):
+        for t in (10 ** 16, 5 * 10 ** 16, 10 ** 15):
+            for unit in (100, 10 ** 9, 10 ** 20):
+                lo, hi = (q * (D - t)) // D, q * (D - t)          # floor(q(1-t)) and q(1-t) * D
+                mid = (lo * D + hi) // 2                            # a pool ratio (times D) strictly between them
+                p0, p1 = mid * unit // D, unit
+                for (d0, d1, r0, r1) in ((q * unit, unit, p0, p1), (unit, q * unit, p1, p0), (q * unit, unit, q * unit, unit)):
+                    if max(d0, d1, r0, r1) < W128 and min(r0, r1) > 0:
+                        cases.append(slippage_case(t, d0, d1, r0, r1, "directed-boundary"))
     for it in range(150 * n):
         t = rng.choice(ts)
         mode = rng.randrange(3)
